@@ -3,6 +3,7 @@ package vg
 import (
 	"go/token"
 	"go/types"
+	"net/http"
 	"net/textproto"
 	"strings"
 
@@ -431,6 +432,85 @@ func runC05more(c *Ctx) {
 		if nFn == 0 {
 			c.Bad("C05.7", FuncName(ext), "extract-once", ext.Pos(), "the trailer extractor is never called: shape changed")
 		}
+	}
+
+	// ---------------------------------------------------------------- C05.8
+	// The trailer extractor has two sources: keys the handler announced (Trailer: X, then X) and
+	// keys in net/http's "Trailer:X" form.  A path that returns without having visited one of them
+	// (a shortcut for 'trailers were announced, no need to scan') drops the other kind.
+	c.Rule("C05.8", "the trailer extractor takes announced and 'Trailer:'-prefixed trailers on every path", 2)
+	{
+		ext := p.MustFunc("httpExtractTrailers")
+		var hdrP, setP ssa.Value
+		hkT := p.MustNamed("headerKeys")
+		for _, pr := range ext.Params {
+			if isHTTPHeader(pr.Type()) && hdrP == nil {
+				hdrP = pr
+			}
+			if types.Identical(pr.Type(), hkT) {
+				setP = pr
+			}
+		}
+		if hdrP == nil || setP == nil {
+			fatalf("anchor=httpExtractTrailers: header / announced-keys parameters not found")
+		}
+		var rets []*ssa.BasicBlock
+		for _, b := range ext.Blocks {
+			if len(b.Instrs) > 0 {
+				if _, ok := b.Instrs[len(b.Instrs)-1].(*ssa.Return); ok {
+					rets = append(rets, b)
+				}
+			}
+		}
+		var prefixedL, announcedL *mapLoop
+		for _, l := range mapLoops(ext) {
+			overHdr := sameMapValue(l.rng.X, hdrP)
+			overSet := sameMapValue(l.rng.X, setP)
+			for b := range l.in {
+				for _, in := range b.Instrs {
+					mu, ok := in.(*ssa.MapUpdate)
+					if !ok || !isHTTPHeader(mu.Map.Type()) || sameMapValue(mu.Map, hdrP) {
+						continue
+					}
+					form, fok := keyForm(mu.Key, l.isKey, b, 0)
+					switch {
+					case overHdr && fok && form == "K-"+quote(http.TrailerPrefix):
+						prefixedL = l
+					case overSet && fok && form == "K":
+						if src, ok := sameKeyLookup(mu.Value, mu.Key); ok && sameMapValue(src, hdrP) {
+							announcedL = l
+						}
+					case overHdr && fok && form == "K":
+						for _, f := range FactsAt(b) {
+							ex, isEx := f.Cond.(*ssa.Extract)
+							if !isEx || !f.Truth || ex.Index != 1 {
+								continue
+							}
+							if lk, isLk := ex.Tuple.(*ssa.Lookup); isLk && sameMapValue(lk.X, setP) && l.isKey(strip(lk.Index)) {
+								announcedL = l
+							}
+						}
+					}
+				}
+			}
+		}
+		onEvery := func(l *mapLoop) bool {
+			if l == nil {
+				return false
+			}
+			for _, r := range rets {
+				if !l.head.Dominates(r) {
+					return false
+				}
+			}
+			return len(rets) > 0
+		}
+		c.Check(onEvery(prefixedL), "C05.8", FuncName(ext), "prefixed-trailers-on-every-path", ext.Pos(),
+			"every return is preceded by the loop that moves the 'Trailer:'-prefixed entries out of the header map",
+			"a path returns without scanning the header map for 'Trailer:'-prefixed entries (or no such loop exists): trailers a handler sets in that form are dropped on it")
+		c.Check(onEvery(announcedL), "C05.8", FuncName(ext), "announced-trailers-on-every-path", ext.Pos(),
+			"every return is preceded by the loop that moves the announced trailer keys out of the header map",
+			"a path returns without moving the announced trailer keys out of the header map (or no such loop exists): announced trailers are dropped on it")
 	}
 
 	c.Rule("C05.6", "a response end created while extracting headers carries the trailers extracted there", 2)
